@@ -22,7 +22,7 @@ claim('C04', 'model_checking',
       'explicit-state BFS (to fix-point or depth bound) over name-request histories executed on the real in-process bus, each transition compared with an executable transcription of the specification',
       'All histories of RequestName (9 flag words, valid and invalid targets), ReleaseName, disconnect and reconnect by 3 clients over 1-2 names are explored breadth-first with dedup on the '
       'implementation\'s own canonical state dump; at every transition the reply code, the complete queue with per-owner flags, every signal at every client, signal-before-reply ordering and all four query methods '
-      'must equal what the specification\'s algorithm prescribes; a reload of the unchanged configuration is an operation that must change nothing.',
+      'must equal what the specification\'s algorithm prescribes; a reload of the unchanged configuration is an operation that must change nothing. In six registry states the four query methods are also asked about look-alike names (continuations and truncations of the bus name and of owned names, an unissued unique name), the bus name and every live unique name.',
       'Trusts pyv/models/names.py as the reading of the specification. More than 3 clients / 2 names and histories beyond the completed depth are not covered; names at the per-connection limit are covered in C13.',
       'DESIGN.md section 4 C04')
 
